@@ -62,4 +62,6 @@ def run(tier, seed):
 
 
 def replay(path):
+    import os
+    os.environ["VERIF_WARMUP"] = "1"      # see drive.run_behaviour: exports before the replayed one
     return _ser.replay("C13", path)
